@@ -659,59 +659,164 @@ func c17Gating(c *Ctx) {
 		return
 	}
 	fn := c.fname(nh)
-	fi := an.Info(nh)
+	// Decided on the enumerated paths of NewHandler (registration helpers in line). A route may be
+	// registered with a constant pattern, or row by row from a literal table of {pattern, …} structs: then
+	// every row is decided separately, a condition on a field of the row being read from that row.
 	n := 0
-	for _, ci := range an.CallsIn(nh) {
-		f := an.CalleeObj(ci.Common())
-		if f == nil || f.Pkg() == nil || f.Pkg().Path() != "net/http" || (f.Name() != "Handle" && f.Name() != "HandleFunc") {
-			continue
+	type verdict struct {
+		ok   bool
+		fact string
+		pos  string
+	}
+	routes := map[string]*verdict{}
+	var order []string
+	fieldOfRow := func(row *an.Expr, name string) *an.Expr {
+		if row.Op == an.OpNew && len(row.Args) == 1 {
+			row = row.Args[0]
 		}
-		pat, ok := ci.Common().Args[1].(*ssa.Const)
-		if !ok || pat.Value == nil {
-			c.R.Undecided("R-C17-6", fn+":route-pattern", fn, c.pos(ci.Pos()), "non-constant route pattern")
-			continue
+		if row.Op != an.OpStruct || row.Typ == nil {
+			return nil
 		}
-		route := constant.StringVal(pat.Value)
-		n++
-		g := fi.Guard(ci.Block())
-		want := ""
-		switch {
-		case route == "/metrics":
-			want = "Prometheus"
-		case strings.HasPrefix(route, "/debug/pprof"):
-			want = "PProf"
-		case route == "/_/api/interfaces":
-			want = ""
-		default:
-			c.R.Fail("R-C17-6", fn+":route:"+route, fn, c.pos(ci.Pos()), "unexpected route "+route, "documented routes only", "undocumented debug route")
-			continue
-		}
-		ok2 := true
-		fact := "unconditional"
-		if want == "" {
-			ok2 = len(g) == 1 && len(g[0]) == 0
-			if !ok2 {
-				fact = "conditional"
+		st, ok := row.Typ.Underlying().(*types.Struct)
+		if !ok {
+			if pt, isP := row.Typ.Underlying().(*types.Pointer); isP {
+				st, ok = pt.Elem().Underlying().(*types.Struct)
 			}
-		} else {
-			ok2 = len(g) > 0
-			for _, conj := range g {
-				found := false
-				for _, a := range conj {
-					e := c.XO.Of(a.Cond)
-					if e.IsField(want) && a.Pos && e.Args[0].IsField("Debug") {
-						found = true
+		}
+		if !ok {
+			return nil
+		}
+		for i := 0; i < st.NumFields() && i < len(row.Args); i++ {
+			if st.Field(i).Name() == name {
+				return row.Args[i]
+			}
+		}
+		return nil
+	}
+	for _, p := range c.pathsO("R-C17-6", nh, an.PathOpts{EmitCut: true}) {
+		type reg struct {
+			ci  ssa.CallInstruction
+			pat *an.Expr
+		}
+		var regs []reg
+		seq := map[ssa.Instruction]int{}
+		p.Instrs(func(in ssa.Instruction) {
+			seq[in] = len(seq)
+			ci, ok := in.(ssa.CallInstruction)
+			if !ok {
+				return
+			}
+			f := an.CalleeObj(ci.Common())
+			if f == nil || f.Pkg() == nil || f.Pkg().Path() != "net/http" || (f.Name() != "Handle" && f.Name() != "HandleFunc") {
+				return
+			}
+			regs = append(regs, reg{ci, p.Of(ci.Common().Args[1])})
+		})
+		for _, rg := range regs {
+			// rows: (pattern, the table element expression, the row literal)
+			type rowT struct {
+				pattern string
+				elem    *an.Expr
+				row     *an.Expr
+			}
+			var rows []rowT
+			if s, ok := constString(rg.pat); ok {
+				rows = append(rows, rowT{s, nil, nil})
+			} else if rg.pat.Op == an.OpField && len(rg.pat.Args) == 1 && rg.pat.Args[0].Op == an.OpElem && len(rg.pat.Args[0].Args) >= 1 {
+				elem := rg.pat.Args[0]
+				var literalRows []*an.Expr
+				if tbl := elem.Args[0]; tbl.Op == an.OpStruct && tbl.Name == "list" {
+					literalRows = tbl.Args
+				} else if gr, ok := c.globalStructTable(tbl); ok {
+					literalRows = gr
+				}
+				if len(literalRows) == 0 {
+					rows = nil
+				}
+				for _, row := range literalRows {
+					if row == nil {
+						continue
+					}
+					if pv := fieldOfRow(row, rg.pat.Name); pv != nil {
+						if s, ok := constString(pv); ok {
+							rows = append(rows, rowT{s, elem, row})
+							continue
+						}
+					}
+					rows = nil
+					break
+				}
+			}
+			if len(rows) == 0 {
+				c.R.Undecided("R-C17-6", fn+":route-pattern", fn, c.pos(rg.ci.Pos()), "route pattern is neither a constant nor a field of a literal table row: "+rg.pat.String())
+				continue
+			}
+			for _, row := range rows {
+				// configuration flags established on the path for this row
+				flags := map[string]bool{}
+				for _, a := range p.Atoms {
+					// only conditions decided before the registration guard it
+					if a.If != nil {
+						if k, known := seq[a.If]; known && k > seq[rg.ci.(ssa.Instruction)] {
+							continue
+						}
+					}
+					e := a.Cond
+					if row.elem != nil && e.Op == an.OpField && len(e.Args) == 1 && sameValue(e.Args[0], row.elem) {
+						if v := fieldOfRow(row.row, e.Name); v != nil {
+							e = v
+						}
+					}
+					if e.Op == an.OpField && len(e.Args) == 1 && e.Args[0].IsField("Debug") && a.Pos {
+						flags[e.Name] = true
 					}
 				}
-				if !found {
-					ok2 = false
+				route := row.pattern
+				want := ""
+				switch {
+				case route == "/metrics":
+					want = "Prometheus"
+				case strings.HasPrefix(route, "/debug/pprof"):
+					want = "PProf"
+				case route == "/_/api/interfaces":
+					want = ""
+				default:
+					c.R.Fail("R-C17-6", fn+":route:"+route, fn, c.pos(rg.ci.Pos()), "unexpected route "+route, "documented routes only", "undocumented debug route")
+					continue
+				}
+				ok2 := true
+				fact := "unconditional"
+				if want == "" {
+					ok2 = len(flags) == 0
+					if !ok2 {
+						fact = "conditional"
+					}
+				} else {
+					ok2 = flags[want]
+					fact = fmt.Sprintf("registered on a path that established cfg.Debug.%s: %v (flags %v)", want, ok2, keysOf(flags))
+				}
+				v := routes[route]
+				if v == nil {
+					v = &verdict{ok: true, pos: c.pos(rg.ci.Pos())}
+					routes[route] = v
+					order = append(order, route)
+					n++
+				}
+				if !ok2 {
+					v.ok = false
+				}
+				if v.fact == "" || !ok2 {
+					v.fact = fact
 				}
 			}
-			fact = fmt.Sprintf("guarded by cfg.Debug.%s=%v", want, ok2)
 		}
-		c.R.Check(ok2, "R-C17-6", fn+":route:"+route, fn, c.pos(ci.Pos()), fact,
+	}
+	for _, route := range order {
+		v := routes[route]
+		c.R.Check(v.ok, "R-C17-6", fn+":route:"+route, fn, v.pos, v.fact,
 			"/metrics only under Debug.Prometheus, /debug/pprof/* only under Debug.PProf, /_/api/interfaces always", "a debug endpoint is served when disabled (or the API is missing)")
 	}
+	_ = n
 	c.R.Floor("R-C17-6", 7)
 	// interfaces handler: State/RA errors → errorf + return, no panic
 	if ih := c.needMethod("R-C17-6", "internal/crhttp", "Handler", "interfaces"); ih != nil {
